@@ -53,3 +53,15 @@ Example C15_heartbeat_interval_units :
   /\ option_map m_data (exec_set s_SetN2kPGN126993 [VI 655321; VI 0]) = Some [254; 255; 0; 255; 255; 255; 255; 255].
 Proof. vm_compute. repeat split; reflexivity. Qed.
 Print Assumptions C15_heartbeat_interval_units.
+
+(* the enumerators of the enumerated fields carry the published codes (the generated table is what clang reads from src/N2kTypes.h) *)
+From N2kV Require Spec.RefEnums Proofs.EnumProofs Gen.GenEnums.
+Theorem C15_enumerator_codes : RefEnums.enum_codes_stmt GenEnums.gen_enums RefEnums.ref_enum_codes.
+Proof. apply EnumProofs.enum_codes_sound. vm_compute. reflexivity. Qed.
+Print Assumptions C15_enumerator_codes.
+Example C15_enumerator_codes_nonvacuous :
+  length RefEnums.ref_enum_codes = 14%nat /\
+  RefEnums.assoc RefEnums.name_wind_true_boat (match RefEnums.assoc RefEnums.name_wind_reference GenEnums.gen_enums with Some g => g | None => [] end) = Some 3 /\
+  RefEnums.enum_codes_ok [(RefEnums.name_wind_reference, [(RefEnums.name_wind_true_boat, 4)])] [(RefEnums.name_wind_reference, [(RefEnums.name_wind_true_boat, 3)])] = false.
+Proof. vm_compute. repeat split; reflexivity. Qed.
+Print Assumptions C15_enumerator_codes_nonvacuous.
